@@ -98,12 +98,13 @@ pub fn with_random<R>(f: impl FnOnce(&mut RandomDir) -> R) -> Option<R> {
 }
 
 fn mode() -> u8 {
-    DIR.with(|d| match &*d.borrow() {
+    DIR.try_with(|d| match &*d.borrow() {
         Dir::Idle => 0,
         Dir::Replay => 1,
         Dir::Random(_) => 2,
         Dir::Script(_) => 3,
     })
+    .unwrap_or(0)
 }
 
 /// Trace callback: `Some(j)` = panic after reporting `j` children.
